@@ -191,7 +191,7 @@ def run(chk):
                     judge('middle row of the 3-point NotAKnot arm', F1, wm, lambda w: w[1] == 1, lib.body(S.SFK)['span'], queries=())
     chk.floor('R15.1', 'systems typed', nsys, 50)
     # ---- periodic arms
-    per = Enum(S.IB, 'Periodic')
+    per = S.internal('Periodic')
     wmP = [(p, w) for p, w in WS if p not in ('v_l', 'v_r')]
     m, out, ex = S.run_solve(lib, per, 3, ends_equal=True)
     if chk.ob('R15.1', "3-point periodic arm extracted", ex is None and m.k.d['t'].generic, '', 'periodic3'):
@@ -222,9 +222,9 @@ def run(chk):
             except Unsupported:
                 return True
     ncmp = 0
-    preds = [('interp1d::Interp1D::is_in_range', 'x', lambda: interp1d_obj(Unit()), ['q']),
-             ('interp2d::Interp2D::is_in_x_range', 'x', lambda: interp2d_obj(Unit()), ['q']),
-             ('interp2d::Interp2D::is_in_y_range', 'y', lambda: interp2d_obj(Unit()), ['q'])]
+    preds = [('Interp1D::is_in_range', 'x', lambda: interp1d_obj(Unit()), ['q']),
+             ('Interp2D::is_in_x_range', 'x', lambda: interp2d_obj(Unit()), ['q']),
+             ('Interp2D::is_in_y_range', 'y', lambda: interp2d_obj(Unit()), ['q'])]
     WQ = [(RX, (1, 0)), (RY, (1, 0)), ('q', (1, 0)), ('qx', (1, 0)), ('qy', (1, 0)), (re.compile(r'^n_[xy]$'), (0, 0))]
     for path, axis, mk, qs in preds:
         bb = lib.body(path)
